@@ -4,4 +4,9 @@ Helper lemmas about the reference hash implementations (output sizes).
 import StunVerif.Crypto.Hash
 namespace StunVerif.Hash
 
+theorem enc32be_length (x : UInt32) : (enc32be x).length = 4 := rfl
+
+theorem enc32le_length (x : UInt32) : (enc32le x).length = 4 := by
+  simp [enc32le, enc32be_length]
+
 end StunVerif.Hash
